@@ -449,7 +449,10 @@ spif_mbuff_cmp_with_ptr(spif_mbuff_t self, spif_byteptr_t other, spif_memidx_t l
     int c;
 
     SPIF_OBJ_COMP_CHECK_NULL(self, other);
-    c = memcmp(SPIF_MBUFF_BUFF(self), other, len);
+    c = memcmp(SPIF_MBUFF_BUFF(self), other, MIN(self->size, len));
+    if ((c == 0) && (self->size < len)) {
+        return SPIF_CMP_LESS;
+    }
     return SPIF_CMP_FROM_INT(c);
 }
 
